@@ -44,4 +44,40 @@ def handleIter : List String → Option String
     pure s!"{iterModel n r1 r2 k}\t{b2s (iterSpec n obs)}"
   | _ => none
 
+/-- `Next` driven from a given state for up to `k` calls (hook `VerifRangeIteratorAt`) -/
+def stepK (fuel : Nat) : It → Nat → Option (List Nat × Bool)
+  | _, 0 => some ([], false)
+  | it, k + 1 =>
+    match it.next fuel with
+    | none => none
+    | some (it', true) => (stepK fuel it' k).map (fun (l, c) => (it'.I :: l, c))
+    | some (_, false) => some ([], true)
+
+def handleIterStep : List String → Option String
+  | [p, g, i, s, lim, k, obs] => do
+    let p ← parseNat? p; let g ← parseNat? g; let i ← parseNat? i; let s ← parseNat? s
+    let lim ← parseNat? lim; let k ← parseNat? k
+    let it : It := { P := p, G := g, I := i, startI := s, limit := lim, stop := false }
+    let m := match stepK p it k with
+      | none => "DIVERGE"
+      | some (l, c) => s!"OK {b2s c} {natList l}"
+    -- Spec on the observed values: in range, no repeats (a prefix of a rearrangement of 1..limit)
+    let v := match obs.splitOn " " with
+      | ["OK", _, vals] => match parseNatList vals with
+        | some l => Spec.RangeIter.isPrefix1N l lim
+        | none => false
+      | _ => false
+    pure s!"{m}\t{b2s v}"
+  | _ => none
+
+/-- complete iteration, counted by the harness: by `C04_perm` the model's answer is "n values, all
+    distinct and in range"; the driver does not re-run millions of steps -/
+def handleIterCount : List String → Option String
+  | [n, _seed, _r1, _r2, obs] => do
+    let n ← parseInt? n
+    let pmax := (Generated.cyclicGroups.map (·.P)).foldl max 0
+    let m := if n ≤ 0 ∨ (pmax : Int) ≤ n then "E_RANGESIZE" else s!"{n} 1"
+    pure s!"{m}\t{b2s (obs == m)}"
+  | _ => none
+
 end Driver
